@@ -15,7 +15,7 @@ CHECKS = {
             "DESIGN.md section 4, C04"),
     "C01": ("exploration",
             "real SdoClient against a strict reference SDO server on a simulated bus: client-side wire monitor (every request frame validated for its protocol step) + store/returned-bytes comparison over generated transfers",
-            "Every client frame of every generated transfer (lengths 0..64 exhaustive, boundary lengths up to 70000, declared/undeclared size, forced segmentation, 5 buffering modes, 5 chunkings, 6 server response styles, boundary and random multiplexers, shuffled back-to-back history on one client) is validated by an independent CiA 301 server model, and the committed / returned bytes are compared with the payload. Held = no illegal frame and no byte difference in the transfers listed in the evidence.",
+            "Every client frame of every generated transfer (lengths 0..64 exhaustive, boundary lengths up to 70000, declared/undeclared size, forced segmentation, 5 buffering modes, 5 chunkings, 6 server response styles plus servers that fill upload segments only partly or not at all, python-can-style and buffer-reusing back ends, boundary and random multiplexers, shuffled back-to-back history on one client) and every abort frame the client emits when it abandons a transfer (time-out at every step of all six transfer kinds, SdoClient.abort()) is validated by an independent CiA 301 server model, and the committed / returned bytes are compared with the payload. Held = no illegal frame and no byte difference in the transfers listed in the evidence.",
             "Trusted: the reference server's transcription of CiA 301 7.2.4; inline delivery (no timing); expedited writes are offered whole values (API design).",
             "DESIGN.md section 4, C01"),
     "C05": ("exploration",
@@ -25,7 +25,7 @@ CHECKS = {
             "DESIGN.md section 4, C05"),
     "C07": ("fault_enumeration",
             "fault plan on the simulated bus: every response frame of every transfer kind x every disturbance kind, outcome classification + abort-on-wire monitor + undisturbed follow-up transfers",
-            "For expedited, segmented and block transfers in both directions (reference server; real SdoServer for expedited/segmented) every response frame is disturbed once by each kind (lost, lost and delivered late, replaced by abort, toggle, specifier, multiplexer, duplicated, stale frames queued / in between / before) and the call must return exactly the right data or raise an SDO communication/abort error, emit the time-out abort after a loss, and leave client and server able to complete a follow-up upload and download.",
+            "For expedited, segmented and block transfers in both directions (reference server, for block upload also in a style without CRC and size announcement; real SdoServer for expedited/segmented) every response frame is disturbed once by each kind (lost, lost and delivered late, request lost - each also with MAX_RETRIES = 2 -, replaced by abort, toggle, specifier, multiplexer, duplicated, stale frames queued / in between / before) and the call must return exactly the right data or raise an SDO communication/abort error, emit the time-out abort after a loss, and leave client and server able to complete a follow-up upload and download.",
             "Trusted: reference server; stale frames that are legal for the current step (incl. any abort frame) are indistinguishable by protocol and not generated; wall clock only creates the injected time-outs.",
             "DESIGN.md section 4, C07"),
     "C12": ("fault_enumeration",
